@@ -215,3 +215,28 @@ void h_translate_watched(void) {
     VERIF_REACH();
 }
 #endif
+
+#ifdef H_KSCTOR_U
+/* LweKeySwitchKey constructor, UNBOUNDED in n (loop contracts on both loops), (t, basebit) enumerated: for every (i, j, h) -- watched, symbolic --
+ * ks[i][j] + h is element ((i*t + j)*base + h) of the contiguous sample array handed to the constructor: the three-level table is exactly the
+ * row-major view of that array (so every translate access proved in bounds of "its row block" is in bounds of the real array). */
+#define T_ VERIF_T
+#define BB_ VERIF_BASEBIT
+#define BASE_ (1 << VERIF_BASEBIT)
+int32_t g_p1, g_i;
+#include "c_ksctor.h"
+#include "extracted.inc"
+void h_ksctor_unbounded(void) {
+    int32_t n; __CPROVER_assume(n >= 1 && n <= 1000000);
+    LweSample *raw = verif_alloc((size_t)n * T_ * BASE_ * sizeof(LweSample));
+    int32_t gi, gj, gh; __CPROVER_assume(gi >= 0 && gi < n && gj >= 0 && gj < T_ && gh >= 0 && gh < BASE_); g_i = gi; g_p1 = gi * T_ + gj;
+    LweParams op; LweKeySwitchKey ks;
+    LweKeySwitchKey__ctor(&ks, n, T_, BB_, &op, raw);
+    __CPROVER_assert(ks.n == n && ks.t == T_ && ks.basebit == BB_ && ks.base == BASE_ && ks.out_params == &op && ks.ks0_raw == raw, "shape and parameters stored");
+    VERIF_SIZE_GUARD(ks.ks1_raw, (size_t)n * T_ * sizeof(LweSample *)); VERIF_SIZE_GUARD(ks.ks, (size_t)n * sizeof(LweSample **));
+    __CPROVER_assert(ks.ks[gi][gj] + gh == raw + ((int64_t)(gi * T_ + gj) * BASE_ + gh), "ks[i][j][h] is element (i*t + j)*base + h of the contiguous array, for every i < n, j < t, h < base");
+    __CPROVER_assert(__CPROVER_r_ok(&ks.ks[gi][gj][gh], sizeof(LweSample)), "and lies inside that array");
+    free(ks.ks1_raw); free(ks.ks); free(raw);
+    VERIF_REACH();
+}
+#endif
